@@ -485,16 +485,19 @@ pub fn c09(o: &Opts) -> i32 {
     let mut cases = vec![];
     let n = if q { 8 } else { 60 };
     for i in 0..n {
-        let p = r.pick(&all).clone();
+        let mut p = r.pick(&all).clone();
+        let mut warm: Vec<Pos> = vec![];
+        if i % 2 == 1 {
+            // the cache holds the earlier searches of the same game: the positions four and two plies before
+            // the one searched now (their trees overlap with it at other remaining depths), plus an unrelated one
+            let mut cur = p.clone();
+            let mut ok = true;
+            for step in 0..4 { let ms = cur.legal_moves(); if ms.is_empty() { ok = false; break; } if step % 2 == 0 { warm.push(cur.clone()); } cur = cur.make(r.pick(&ms)); }
+            if ok && cur.legal_moves().len() >= 3 && cur.legal_moves().len() <= 48 { p = cur; } else { warm.clear(); }
+            warm.push(r.pick(&all).clone());
+        }
         let big = p.piece_count() > 12;
         let depth = if q { if big { 2 } else { 3 } } else { 2 + r.below(if big { 2 } else { 3 }) as u8 };
-        let warm: Vec<Pos> = if i % 2 == 0 { vec![] } else {
-            // earlier searches of "the same game": positions two and four plies before, plus an unrelated one
-            let mut w = vec![]; let mut cur = p.clone();
-            for _ in 0..2 { let ms = cur.legal_moves(); if ms.is_empty() { break; } cur = cur.make(r.pick(&ms)); let ms2 = cur.legal_moves(); if ms2.is_empty() { break; } cur = cur.make(r.pick(&ms2)); w.push(cur.clone()); }
-            w.push(r.pick(&all).clone());
-            w
-        };
         cases.push(C09Case { p, depth, warm, schedules: if q { 10 } else { 40 }, id: i });
     }
     // positions with several equally quick forced mates inside the horizon: whichever root task finishes
